@@ -100,6 +100,17 @@ Theorem C16_mac_exact M m arch :
   ((M < 10)%nat -> mac_struct (M, m) arch = []).
 Proof. split; [apply mac_exact_10|]. split; [apply mac_exact_11 | apply mac_exact_old]. Qed.
 Print Assumptions C16_mac_exact.
+(* 9b. _mac_binary_formats as a table: the formats valid for each CPU architecture and version *)
+Theorem C16_mac_formats v :
+  mac_binary_formats v s_x86_64 = (if ver_lt v (10, 4)%nat then [] else [s_x86_64; s_intel; s_fat64; s_fat32; s_universal2; s_universal]) /\
+  mac_binary_formats v s_i386 = (if ver_lt v (10, 4)%nat then [] else [s_i386; s_intel; s_fat32; s_fat; s_universal]) /\
+  mac_binary_formats v s_ppc64 = (if ver_lt (10, 5)%nat v || ver_lt v (10, 4)%nat then [] else [s_ppc64; s_fat64; s_universal]) /\
+  mac_binary_formats v s_ppc = (if ver_lt (10, 6)%nat v then [] else [s_ppc; s_fat32; s_fat; s_universal]) /\
+  mac_binary_formats v s_arm64 = [s_arm64; s_universal2] /\
+  mac_binary_formats v s_intel = [s_intel; s_universal] /\
+  (forall a, ~ In a [s_x86_64; s_i386; s_ppc64; s_ppc; s_arm64; s_intel] -> mac_binary_formats v a = [a]).
+Proof. exact (mac_formats_table v). Qed.
+Print Assumptions C16_mac_formats.
 Theorem C16_mac_nothing_newer M m arch a b f : In (a, b, f) (mac_struct (M, m) arch) -> ver_le (a, b) (M, m).
 Proof. apply mac_nothing_newer. Qed.
 Print Assumptions C16_mac_nothing_newer.
@@ -228,6 +239,14 @@ Theorem C16_musl_string a M m sfx tail :
   parse_musl_version ((s_musl ++ a) ++ [10] ++ (s_Version_ ++ dn M ++ [46] ++ dn m ++ sfx) ++ tail) = Some (M, m).
 Proof. apply parse_musl_render. Qed.
 Print Assumptions C16_musl_string.
+
+(* ------------------------------------------------------------------ memoised probe *)
+(* 18. functools.lru_cache on the libc probe as a one-cell state machine: every call after the first answers what the first
+       probed; in an unchanged environment that equals the uncached answers (cache transparent) *)
+Theorem C16_cache_transparent e envs n :
+  run_probes None (e :: envs) = e :: map (fun _ => e) envs /\ run_probes None (repeat e n) = repeat e n.
+Proof. split; [apply probes_memoised | apply probes_transparent]. Qed.
+Print Assumptions C16_cache_transparent.
 
 (* ------------------------------------------------------------------ non-vacuity *)
 (* glibc 2.19 on x86_64 without a policy module: 2.19, 2.18, 2.17, manylinux2014, 2.16 ... (alias right after 2.17);
